@@ -266,6 +266,7 @@ impl Property for C04 {
             files: Default::default(),
             timing,
             io: false,
+            fixed_faults: Default::default(),
             expect: serde_json::to_value(&expect).unwrap(),
             shape: h.0,
             est_len: 100,
